@@ -36,7 +36,7 @@ FORMS = [
     ("#", ""),
     ("#", '12 "file.f90"'),
 ]
-RENDER = ["plain", "continued", "leading", "after-hash"]
+RENDER = ["plain", "continued", "leading", "after-hash", "continued3"]
 
 
 def render_directive(form, mode):
@@ -52,6 +52,12 @@ def render_directive(form, mode):
     if mode == "continued":
         k = text.rindex(" ")
         return [text[:k] + " \\", "   " + text[k + 1 :]], payload
+    if mode == "continued3":
+        parts = text.split(" ")
+        if len(parts) < 3:
+            return [text], payload
+        a, b, c = parts[0], " ".join(parts[1:-1]), parts[-1]
+        return [a + " \\", "  " + b + " \\", "     " + c], payload
     if mode == "leading":
         return ["   " + text], payload
     if mode == "after-hash":
